@@ -330,6 +330,7 @@ func cmdCheck(args []string) {
 	funcs := map[string]bool{}
 	var samples []interface{}
 	totalPaths, totalDec, totalOb, totalDis, totalUnknown, validated := 0, 0, 0, 0, 0, 0
+	totalBranchQ := 0
 	var solverS float64
 	var inconclusive []string
 	violations := 0
@@ -378,13 +379,14 @@ func cmdCheck(args []string) {
 			res := e.Explore(h, *workers, 0, 0)
 			fmt.Println(res.Summary())
 			ev := hEv{Harness: hc.Name, Params: params, Bound: hc.Bound, Paths: res.Paths, Status: res.Status,
-				Decisions: res.BranchQ, Obligs: res.AssertQ + res.AssertTriv, Discharged: res.AssertOK, Trivial: res.AssertTriv,
+				Decisions: res.Decisions, Obligs: res.AssertQ + res.AssertTriv, Discharged: res.AssertOK, Trivial: res.AssertTriv,
 				Unknown: res.Unknown, SolverS: res.SolverS, Checks: res.SolverChecks, WallS: res.WallS, NFuncs: len(res.Funcs)}
 			for f := range res.Funcs {
 				funcs[f] = true
 			}
 			totalPaths += res.Paths
-			totalDec += res.BranchQ
+			totalDec += res.Decisions
+			totalBranchQ += res.BranchQ
 			totalOb += res.AssertQ + res.AssertTriv
 			totalDis += res.AssertOK
 			totalUnknown += res.Unknown
@@ -504,9 +506,10 @@ func cmdCheck(args []string) {
 			"transitions":                   totalDec,
 			"traces_validated_against_impl": validated,
 			"samples":                       samples,
+			"solver_branch_queries":         totalBranchQ,
 			"obligations":                   totalOb,
 			"discharged":                    totalDis,
-			"explanation":                   "bounded symbolic execution of the go/ssa form of /repo's working tree; states = complete symbolic paths, transitions = branch/geometry decisions decided by the SMT solver, obligations = vAssert sites evaluated on those paths (each either rewritten to true by the term builder or proved by an unsat answer for PC ∧ ¬cond)",
+			"explanation":                   "bounded symbolic execution of the go/ssa form of /repo's working tree; states = complete symbolic paths, transitions = edges of the explored decision tree (branch, geometry and case-split decisions; those needing the solver are counted in solver_branch_queries), obligations = vAssert sites evaluated on those paths (each either rewritten to true by the term builder or proved by an unsat answer for PC ∧ ¬cond)",
 			"harnesses":                     hevs,
 			"functions_encoded_repo":        fnames,
 			"functions_encoded_total":       len(funcs),
